@@ -175,6 +175,29 @@ func c08LongHeader(D int, sparse bool) {
 		}
 		if !p && err == nil {
 			rt.Check(g.N() == n, "Sparse6Decode: wrong order (long header)")
+			// re-encoding the result and decoding again gives the same graph
+			var enc string
+			var g2 *SparseGraph
+			var err2 error
+			p2, msg2 := rt.Panics(func() { enc = Sparse6Encode(g); g2, err2 = Sparse6Decode(enc) })
+			rt.Check(!p2, "re-encoding / decoding a decoded sparse6 graph panicked: "+msg2)
+			if !p2 {
+				rt.Check(err2 == nil, "Sparse6Decode rejects the re-encoding of a graph it decoded")
+				if err2 == nil {
+					rt.Check(g2.N() == g.N() && g2.M() == g.M(), "sparse6 decode/encode/decode changes the graph (order or size)")
+					if g2.N() == g.N() {
+						for v := 0; v < g.N(); v++ {
+							a, b := g.Neighbours(v), g2.Neighbours(v)
+							rt.Check(len(a) == len(b), "sparse6 decode/encode/decode changes the graph")
+							for k := range a {
+								if k < len(b) {
+									rt.Check(a[k] == b[k], "sparse6 decode/encode/decode changes the graph")
+								}
+							}
+						}
+					}
+				}
+			}
 		}
 	} else {
 		var g *DenseGraph
@@ -183,6 +206,21 @@ func c08LongHeader(D int, sparse bool) {
 		rt.Check(!p, "Graph6Decode panicked: "+msg)
 		if !p && err == nil {
 			c08WellFormed(g, n, "Graph6Decode result (long header)")
+			var g2 *DenseGraph
+			var err2 error
+			p2, msg2 := rt.Panics(func() { g2, err2 = Graph6Decode(Graph6Encode(g)) })
+			rt.Check(!p2, "re-encoding / decoding a decoded graph6 graph panicked: "+msg2)
+			if !p2 {
+				rt.Check(err2 == nil, "Graph6Decode rejects the re-encoding of a graph it decoded")
+				if err2 == nil {
+					rt.Check(g2.N() == g.N() && g2.M() == g.M(), "graph6 decode/encode/decode changes the graph (order or size)")
+					if g2.N() == g.N() && len(g2.Edges) == len(g.Edges) {
+						for k := range g.Edges {
+							rt.Check((g.Edges[k] > 0) == (g2.Edges[k] > 0), "graph6 decode/encode/decode changes the graph")
+						}
+					}
+				}
+			}
 		}
 	}
 	rt.Reach("end")
